@@ -108,11 +108,17 @@ class PythonEvaluator(Evaluator):
         self._executable_code = {}  # type: Dict[str, CodeType]
 
         # Frozen context for __old__
-        self._memory = {}  # type: Dict[int, FrozenContext]
+        self._memory = {}  # type: Dict[Any, FrozenContext]
 
     @property
     def context(self) -> Mapping:
         return self._context
+
+    @staticmethod
+    def _memory_key(obj):
+        # Key that survives copy and pickling: states are identified by their (unique)
+        # name, transitions by their value (they are hashable and compared by value).
+        return obj if isinstance(obj, Transition) else getattr(obj, 'name', id(obj))
 
     def _setdefault(self, name: str, value: Any) -> Any:
         """
@@ -227,7 +233,7 @@ class PythonEvaluator(Evaluator):
 
         # Deal with __old__ in contracts, only required if there is an invariant or a postcondition
         if len(getattr(obj, 'invariants', [])) > 0 or len(getattr(obj, 'postconditions', [])) > 0:
-            self._memory[id(obj)] = FrozenContext(self._context)
+            self._memory[self._memory_key(obj)] = FrozenContext(self._context)
 
         return filter(
             lambda c: not self._evaluate_code(c, additional_context=additional_context),
@@ -247,7 +253,7 @@ class PythonEvaluator(Evaluator):
 
         additional_context = {
             '__old__': self._memory.get(
-                id(obj),
+                self._memory_key(obj),
                 None),
             'after': (
                 lambda seconds: self._interpreter.time - seconds
@@ -284,7 +290,7 @@ class PythonEvaluator(Evaluator):
 
         additional_context = {
             '__old__': self._memory.get(
-                id(obj),
+                self._memory_key(obj),
                 None),
             'after': (
                 lambda seconds: self._interpreter.time - seconds
